@@ -245,7 +245,10 @@ pub async fn run_one(cfg: &MigCfg) -> Vec<Value> {
             break;
         }
     }
-    keys.dedup_by(|a, b| a.0 == b.0);
+    // the same slot can be drawn twice: keep the first occurrence only (dedup_by only removes neighbours; duplicates in the
+    // seeding list once made the trace spec start from the wrong initial value)
+    let mut seen_keys: std::collections::HashSet<String> = std::collections::HashSet::new();
+    keys.retain(|k| seen_keys.insert(k.0.clone()));
     head.push(json!({"kind": "keys", "keys": keys.iter().map(|k| json!({"k": k.0, "in": k.1, "src": k.2, "dst": k.3})).collect::<Vec<_>>(),
                      "ranges": mig_ranges.iter().map(|r| json!({"lo": r.0, "hi": r.1, "src": r.2, "dst": r.3})).collect::<Vec<_>>()}));
     // seed initial values through the proxies (old metadata still installed: everything at the sources)
